@@ -110,7 +110,9 @@ def run(case):
     def one(k, wt, variant, kw_extra, ignored=(), scaling=None, starts=(), ends=(), pool=None):
         kw = {"k": k, "weight_type": wt}
         kw.update(kw_extra)
-        if variant.startswith("noise"):
+        if variant == "solve_twice":
+            obs = drivers.observe(dict(case, cls=cls, kw=kw, solve_twice=True), G)
+        elif variant.startswith("noise"):
             # solver answers within tolerance: every value read from the solver shifted by -/+ 5e-10
             from .. import faults
             with faults.ValueNoise(-5e-10 if variant.endswith("-") else 5e-10):
@@ -205,6 +207,7 @@ def run(case):
             one(k, wt, "plain", {})
             if len(viol) > 4:
                 return _ret(viol, nt, tags)
+    one(min(2, case["kmax"]), "int", "solve_twice", {})
     one(1, "int", "noise-", {})
     one(min(2, case["kmax"]), "int", "noise+", {})
     if not case["full"]:
